@@ -6,6 +6,11 @@
 (*   C (common denominator), Qc (n x n ints = round(Q*C)), exact,          *)
 (*   shift12, linear12 (max relative deviation of Q(E+c) from Q(E) and of  *)
 (*   Q(2D) from 2 Q(D) for random real c, in units of 1e-12), err, form]   *)
+(* wide = TRUE: energy levels spread over up to ~480 kJ/mol (beyond any    *)
+(* common denominator in 32 bits): the off-diagonal entries come as        *)
+(* Qme <<[i, j, m, e]>> with Q_ij = m * base^e / 36, m not divisible by    *)
+(* base, and the row sums as rowRes12 = max_i |sum_j Q_ij| / max_j |Q_ij|  *)
+(* in units of 1e-12.                                                      *)
 (***************************************************************************)
 EXTENDS Integers, Sequences, FiniteSets, TLC, Json, IOUtils
 
@@ -19,6 +24,22 @@ InstOf(r) ==
       at(p) == CHOOSE e \in 1 .. Len(r.pat) : <<r.pat[e][1], r.pat[e][2]>> = p
   IN [n |-> r.n, pat |-> P, S |-> [p \in P |-> r.S[at(p)]], h |-> [p \in P |-> r.h[at(p)]],
       V |-> r.V, k |-> r.k, D |-> r.D, cap |-> r.cap, base |-> r.base]
+
+WideClause(r) ==
+  LET inst == TLCEval(InstOf(r))
+      got == {<<r.Qme[e][1], r.Qme[e][2]>> : e \in 1 .. Len(r.Qme)}
+      at(p) == CHOOSE e \in 1 .. Len(r.Qme) : <<r.Qme[e][1], r.Qme[e][2]>> = p
+  IN IF r.err # "" THEN "exception:" \o r.err
+     ELSE IF ~r.exact THEN "an entry is not on the rational lattice of the formula"
+     ELSE IF \E p \in got : p \notin inst.pat THEN "non-zero entry off the pattern"
+     ELSE IF \E p \in inst.pat : p \notin got THEN "off-diagonal entry differs from D*S/(h*V_i)*exp((E_i-E_j)/2RT)"
+     ELSE IF \E p \in inst.pat : LET q == O!QWide(inst, p[1], p[2]) IN q[1] = 0 THEN "MACHINERY: 36 D S / (h V) is not an integer"
+     ELSE IF \E p \in inst.pat : LET q == O!QWide(inst, p[1], p[2]) IN <<r.Qme[at(p)][3], r.Qme[at(p)][4]>> # q
+          THEN "off-diagonal entry differs from D*S/(h*V_i)*exp((E_i-E_j)/2RT)"
+     ELSE IF r.rowRes12 > 1000 THEN "row does not sum to zero"
+     ELSE IF r.shift12 > 1000 THEN "not invariant under a constant energy shift"
+     ELSE IF r.linear12 > 1000 THEN "not linear in D"
+     ELSE "ok"
 
 Clause(r) ==
   LET inst == TLCEval(InstOf(r))
@@ -36,7 +57,7 @@ Clause(r) ==
 
 Init == l = 1 /\ TLCSet(1, 0)
 Step == /\ l <= Len(Log)
-        /\ LET c == Clause(Rec) IN IF c = "ok" THEN TRUE ELSE PrintT(<<"REJECT", Rec.tid, c, 0>>)
+        /\ LET c == IF Rec.wide THEN WideClause(Rec) ELSE Clause(Rec) IN IF c = "ok" THEN TRUE ELSE PrintT(<<"REJECT", Rec.tid, c, 0>>)
         /\ TLCSet(1, l)
         /\ l' = l + 1
 Spec == Init /\ [][Step]_l
